@@ -6,6 +6,7 @@ package vc
 // quantified hypotheses stay asserted as well; the instances only help the solvers.
 
 import (
+	"os"
 	"fmt"
 	"go/types"
 	"strings"
@@ -181,23 +182,27 @@ func (e *specEnv) goal(x Expr) (g string, extra []string, err error) {
 	e.u.collectKeys = false
 	defer func() {
 		if err == nil {
-			extra = append(extra, e.u.keyInstances()...)
+			for _, l := range e.u.keyInstances() {
+				extra = append(extra, plusMark+l)
+			}
 		}
 	}()
 	if len(sk) == 0 && len(e.u.extraCands) == 0 {
 		return g, nil, nil
 	}
 	at := append([]string{}, sk...)
-	// neighbours of the skolem points: facts about adjacent elements (sortedness, shifted copies)
-	for _, k := range sk {
-		if e.u.mode.BV {
-			at = append(at, "(bvadd "+k+" "+e.u.mode.idxLit(1)+")", "(bvsub "+k+" "+e.u.mode.idxLit(1)+")")
-		} else {
-			at = append(at, "(+ "+k+" 1)", "(- "+k+" 1)")
-		}
-	}
 	at = append(at, e.u.mode.idxLit(0))
 	at = append(at, e.u.extraCands...)
+	// neighbours of the skolem points (facts about adjacent elements: sortedness, shifted copies):
+	// only in the additional instance set
+	var neigh []string
+	for _, k := range sk {
+		if e.u.mode.BV {
+			neigh = append(neigh, "(bvadd "+k+" "+e.u.mode.idxLit(1)+")", "(bvsub "+k+" "+e.u.mode.idxLit(1)+")")
+		} else {
+			neigh = append(neigh, "(+ "+k+" 1)", "(- "+k+" 1)")
+		}
+	}
 	base := append([]string{}, at...)
 	for _, gs := range e.u.ghostSyms {
 		// ghost index maps are candidates only at program points after the call that introduced them
@@ -217,6 +222,20 @@ func (e *specEnv) goal(x Expr) (g string, extra []string, err error) {
 	e.u.collectW = true
 	extra = e.u.instancesAt(at)
 	e.u.collectW = false
+	if len(neigh) > 0 {
+		have := map[string]bool{}
+		for _, l := range extra {
+			have[l] = true
+		}
+		savedW := e.u.witnesses
+		for _, l := range e.u.instancesAt(append(append([]string{}, neigh...), at...)) {
+			if !have[l] {
+				have[l] = true
+				extra = append(extra, plusMark+l)
+			}
+		}
+		e.u.witnesses = savedW
+	}
 	if len(e.u.witnesses) > 0 {
 		// second pass: goal existentials get the hypothesis witnesses as candidate disjuncts
 		e.u.skReuse, e.u.skPos = sk, 0
@@ -261,7 +280,7 @@ func (u *Unit) keyInstances() []string {
 	var out []string
 	cands := u.keyCands
 	u.keyCands = nil
-	if len(cands) == 0 || len(u.hypsV) == 0 {
+	if len(cands) == 0 || len(u.hypsV) == 0 || os.Getenv("GOVC_NO_KEYINST") != "" {
 		return nil
 	}
 	for _, c := range cands {
